@@ -27,7 +27,8 @@ KINDS = {
                             "script": [("c", [(0, 25)]), ("s", [(0, 35)])]}),
 }
 RELATIONS = ["different_hosts", "same_hosts_diff_cport", "same_client_two_servers", "same_server_443_44330", "v4_v6", "crossed_hosts",
-             "resumed_session", "port_in_two_roles", "tcp_to_quic_port", "v4_and_numerically_equal_v6", "first_ends_inside_record"]
+             "resumed_session", "port_in_two_roles", "tcp_to_quic_port", "v4_and_numerically_equal_v6", "first_ends_inside_record", "two_clients_same_port_one_server"]
+# two_clients_same_port_one_server: two client hosts that happen to use the same source port towards one server address and port
 # first_ends_inside_record: the capture stops while the first connection is in the middle of a record (its last data segment
 # holds only the first half of it) - whatever that leaves behind must not reach the other connection
 # v4_and_numerically_equal_v6: a.b.c.d:p -> e.f.g.h:443 next to [::a.b.c.d]:p -> [::e.f.g.h]:443 (same ports)
@@ -78,6 +79,8 @@ def make_flows(ka, kb, rel, cidrel, seed):
             e.update(v6=True)
         if rel == "v4_and_numerically_equal_v6" and idx == 1:
             e.update(v6=True, client_ip="::10.11.0.2", server_ip="::192.0.12.80", client_port=40000 + 17 * 10 + 1)
+        if rel == "two_clients_same_port_one_server" and idx == 1:
+            e.update(client_ip="10.77.0.9", server_ip="192.0.12.80", client_port=40000 + 17 * 10 + 1)
         if rel == "crossed_hosts" and idx == 1:
             # the two hosts talk to each other in both roles with the same port numbers: A:p -> B:443 and B:p -> A:443
             e.update(client_ip="192.0.12.80", server_ip="10.11.0.2", client_port=40000 + 17 * 10 + 1)
@@ -160,6 +163,8 @@ def cases(tier, seed):
                 if ("ssl3_rc4" in (ka, kb) or "quic_bigpn" in (ka, kb)) and rel not in ("different_hosts", "resumed_session"):
                     continue
                 if rel == "crossed_hosts" and (ka != kb or ka in ("tls13", "quic_chacha", "quic_split")):
+                    continue
+                if rel == "two_clients_same_port_one_server" and "quic_split" in (ka, kb):
                     continue
                 if rel == "first_ends_inside_record" and (KINDS[ka][0] != "tls" or "quic_split" in (ka, kb)):
                     continue
